@@ -8,6 +8,7 @@
 #include "utest_types.hpp"
 #include "utest_router.hpp"
 #include "utest_classes.hpp"
+#include <fix8/sessionwrapper.hpp>
 #include "pj.hpp"
 #include "vclock.hpp"
 #include <Poco/Net/StreamSocketImpl.h>
@@ -114,6 +115,7 @@ struct World
 	Poco::Net::SocketAddress addr;
 	int peerfd = -1;
 	bool initiator = true, per_owned_by_session = false;
+	SessionConfig *sf = nullptr;
 	std::string persist_kind = "mem", dir, sender = "INI", target = "ACC";
 	unsigned hb = 30;
 	std::string inbuf;
@@ -345,6 +347,12 @@ static void build_session(World& w, bool purge)
 	lp._no_chksum_flag = flag(w, "nochk");
 	lp._hb_int = w.hb;
 	w.ses->_record = flag(w, "record");
+	if (w.flags.count("sessioncfg"))   // a SessionConfig as the session wrappers install it (ignore_logon_sequence_check etc.)
+	{
+		if (!w.sf)
+			w.sf = new SessionConfig(UTEST::ctx(), w.flags["sessioncfg"], "S1");
+		w.ses->set_session_config(w.sf);
+	}
 	auto ci(w.flags.find("clients"));
 	if (ci != w.flags.end())
 	{
